@@ -9,10 +9,10 @@ CFG = {
             "(comparator ignores the tag) x {Selection, Insertion, Shell, Merge, MergeRec, Quick3Way, Heap, unshuffled quick, "
             "Quick, quick after a scripted Shuffle, Shuffle, Select k for every k, partition, merge}; every slice of length <= 3 (4) over "
             "{MinInt64,-1,0,1,MaxInt64} x {LSDInt, MSDInt, LSDUint, MSDUint}; every slice of length <= 4 (5) over 6 short strings and "
-            "<= 3 (4) over 8 two-byte strings with 0x00/0xff x {MSDString, Quick3WayString (+unshuffled core), LSDString}. "
+            "<= 3 (4) over 8 two-byte strings with 0x00/0xff x {MSDString, Quick3WayString (+unshuffled core), LSDString}; every radix case also runs slices.Sort (op Native) against the specification-level sorted list. "
             "random: lengths 0-13, 14-18, 19-60 and 30-300 (both sides of the insertion cutoff 15); key shapes: uniform small/large range, "
             "ascending, descending, all equal, organ pipe, sawtooth, nearly sorted; integers: all 64-bit patterns, boundary values, one varying "
-            "byte position (all eight), shared top bytes down to the last byte (deepest MSD recursion), both signs; strings: tiny alphabets, shared "
+            "byte position (all eight), shared top bytes down to the last byte (deepest MSD recursion), extreme top/second-byte buckets (0x00,0x7f,0x80,0xff), both signs; strings: tiny alphabets, shared "
             "prefixes of length 0-40, prefixes of one string, all equal, fixed width, bytes 0x00/0xff/all 256. "
             "A case is non-trivial when its input has at least one adjacent inversion (the sort has to move an element); "
             "distinct = distinct (header, element list, op list).",
